@@ -375,6 +375,15 @@ func (s *Sim) checkKeep(v *view, op string) {
 			continue // administrator release; C04 (M-own) judges whether the pod was live
 		}
 		wl := s.wlByKey(pk)
+		// the release policy in force for the IP is the one its owner's workload declares (every pod of a workload
+		// carries the same policy annotation); what IPAM has stored is the thing under test, not the reference
+		pol := prev.Policy
+		if wl != nil && wl.Kind != KBare {
+			if mp := wl.effPolicy(); mp != pol {
+				s.Counts["keep_stored_policy_differs_from_declared"]++
+				pol = mp
+			}
+		}
 		if cur.Key != "" {
 			// re-keyed
 			ck, _ := model.ParseKey(cur.Key)
@@ -391,7 +400,7 @@ func (s *Sim) checkKeep(v *view, op string) {
 					// only deployment pods hand their IP to the app/pool reserve; every other identity keeps it under its own key
 					s.alarm("C02", "non-deployment-pod-ip-moved-to-pool-reserve:"+wl.Kind.String(), fmt.Sprintf(
 						"%s of %s pod key %q was re-keyed to the reserve %q: the identity lost its IP", ip, wl.Kind, prev.Key, cur.Key))
-				} else if wl.Pool == "" && prev.Policy == 1 {
+				} else if wl.Pool == "" && pol == 1 {
 					cnt := 0
 					pre := s.prefixKey(wl)
 					for _, e := range s.prevDump {
@@ -412,7 +421,7 @@ func (s *Sim) checkKeep(v *view, op string) {
 			s.alarm("C03", "reserved-ip-freed-without-api:"+pk.Type, fmt.Sprintf("%s held in reserve under %q was freed without an API release", ip, prev.Key))
 			continue
 		}
-		switch prev.Policy {
+		switch pol {
 		case 0:
 			// default: freed once the pod is gone/finished; a live told owner is judged by C04
 		case 2:
